@@ -1,21 +1,59 @@
 """Gen/HistoryCfg.lean: how the analysis treats the list objects it gets from the machine model
-(C18).  Every flag is read off the *shape* of the statement in the source's AST:
+(C18).  Every flag says whether an object of the machine model is handed on BY REFERENCE or as a copy, and is
+read by DATA FLOW (astutil_G5.Flow / Origins; nothing of OSACA is imported or executed): the objects are tagged
+where they come from (`get_load_throughput(..)`, `.hidden_operands`, `.port_pressure`,
+`_data["load_throughput_default"]`) and the tags are propagated through every way a local gets a value --
+plain / tuple / conditional assignment, `a or [b]`, loop targets, comprehensions, `append` / `extend` / `+=`,
+subscripts with constant index, shallow and deep copies.  Names of locals, hoisted sub-expressions, if/else vs
+conditional expression vs guard, loop vs comprehension do not show.
 
-  rmwInPlace / rmwLoadFirst   arch_semantics.assign_tp_lt: how the store micro-ops are joined to the
-                              load micro-ops (`L += S`, `L.extend(S)`  vs  `L = L + S`, `L = S + L`, ...)
-  loadByRef                   ... whether L is the table's own list (`load_perf_data[0][1]`, `ldp[1]`)
-  loadDefaultCopied           hw_model.get_load_throughput: `load_throughput_default.copy()`
-  foundByRef                  arch_semantics._handle_instruction_found: `port_uops = data.port_pressure`
-  hiddenByRef                 isa_semantics._apply_found_ISA_data: `op_dict[..].append(op)`
+  rmwInPlace / rmwLoadFirst   arch_semantics.assign_tp_lt: the ONE statement that concatenates a load micro-op
+                              list with a store micro-op list (`L += S`, `L.extend(S)`  vs  `X = L + S`,
+                              `S + L`, `[*L, *S]`, `list(chain(L, S))`)
+  loadByRef                   ... whether a copy lies on any way from the load table to that statement
+                              (`load_perf_data[0][1]`, `ldp[1]` / `uops` of `for mem, uops in ...`); all ways
+                              must agree, otherwise the generator fails
+  loadDefaultCopied           hw_model.get_load_throughput: `[(memory, <load_throughput_default>.copy())]`,
+                              also through locals, `list(...)`, `[:]`
+  foundByRef                  arch_semantics._handle_instruction_found: `<form>.port_uops = <data>.port_pressure`
+  hiddenByRef                 isa_semantics._apply_found_ISA_data: every way a hidden operand object reaches an
+                              operand list (`append(op)` in the loop, `+= [h for h in ...]`, `extend`)
   cacheShadowed               hw_model.MachineModel.__init__: runtime-cache hit followed by an
-                              unconditional `_get_cached` whose result replaces it
+                              unconditional `_get_cached` whose result replaces it (statement shape, as before)
+
+Insisted on (fails loudly): one call each of get_load_throughput / get_store_throughput in assign_tp_lt, exactly
+one joining statement, the load list never appended to the store table's list in place, no operand that may be a
+load list as well as a store list.
 
 `census()` lists every in-place operation of the anchored functions (used by the harness only to
 decide how hard to search; it is not an input of any theorem).
 """
 import ast
 
+import os
+import sys
+
 from translate import TranslateError, generator, parse, find_func, HEADER
+
+
+def _load_g5():
+    """astutil_G5.py next to this file, loaded by path (sys.path is left alone)"""
+    import importlib.util
+    if "astutil_G5" in sys.modules:
+        return sys.modules["astutil_G5"]
+    spec = importlib.util.spec_from_file_location(
+        "astutil_G5", os.path.join(os.path.dirname(os.path.abspath(__file__)), "astutil_G5.py"))
+    mod = importlib.util.module_from_spec(spec)
+    sys.modules["astutil_G5"] = mod
+    try:
+        spec.loader.exec_module(mod)
+    except BaseException:
+        del sys.modules["astutil_G5"]
+        raise
+    return mod
+
+
+G5 = _load_g5()
 
 COPY_FUNCS = {"list", "deepcopy", "copy", "tuple", "sorted"}
 
@@ -53,116 +91,199 @@ def _name(node):
     return node.id if isinstance(node, ast.Name) else None
 
 
-def _assigned_from_call(fn, attr):
-    """names assigned from `<anything>.<attr>(...)` inside fn"""
-    out = []
-    for n in ast.walk(fn):
-        if isinstance(n, ast.Assign) and len(n.targets) == 1 and isinstance(n.targets[0], ast.Name):
-            v = n.value
-            if isinstance(v, ast.Call) and isinstance(v.func, ast.Attribute) and v.func.attr == attr:
-                out.append(n.targets[0].id)
-    return out
+def _method(tree, name, cls):
+    """the method with the calls of private / static helper methods of its class substituted (two levels):
+    "extract method" does not hide a data flow (astutil_G5.inline_helpers)"""
+    fn = find_func(tree, name, cls)
+    cnode = [n for n in ast.walk(tree) if isinstance(n, ast.ClassDef) and n.name == cls][0]
+    new, used = G5.inline_helpers(fn, G5.class_resolver([cnode], fn, only=G5.is_private_helper), depth=2)
+    return new if used else fn
+
+
+# --------------------------------------------------------------------------- assign_tp_lt by data flow
+def _method_call(node, attr):
+    return isinstance(node, ast.Call) and isinstance(node.func, ast.Attribute) and node.func.attr == attr
+
+
+def _const(node):
+    """constant subscripts: literals and simple arithmetic on them (`0`, `-1`, `2 - 1`)"""
+    return ast.literal_eval(ast.fix_missing_locations(ast.Expression(body=node))) if not isinstance(node, ast.Constant) \
+        else node.value
+
+
+def _origins(fn):
+    """Tags of the objects that come out of the two throughput tables (G5.Origins):
+
+        LP / SP        the list returned by get_load_throughput(..) / get_store_throughput(..)  (or a shallow
+                       copy / a filtered sub-list of it: the entries are the same objects)
+        LPE / SPE      one entry `(memory operand, micro-op list)` of it
+        LPL / SPL      the micro-op list of an entry -- the object the model cares about
+        LPC / SPC      a list of such micro-op lists (`[ldp[1] for ldp in load_perf_data ...]`)
+    """
+    def source(node):
+        if _method_call(node, "get_load_throughput"):
+            return "LP"
+        if _method_call(node, "get_store_throughput"):
+            return "SP"
+        return None
+
+    def index(kind, k):
+        if kind in ("LP", "SP") and isinstance(k, int):
+            return kind + "E"
+        if kind in ("LPE", "SPE"):
+            return kind[:2] + "L" if k == 1 or k == -1 else None
+        if kind in ("LPC", "SPC") and isinstance(k, int):
+            return kind[:2] + "L"
+        return None
+
+    def elem(kind):
+        return {"LP": "LPE", "SP": "SPE", "LPC": "LPL", "SPC": "SPL"}.get(kind)
+
+    def collect(kind):
+        return {"LPE": "LP", "SPE": "SP", "LPL": "LPC", "SPL": "SPC"}.get(kind)
+
+    def copied(kind, how):
+        if how == "deep":
+            return kind, True
+        # a shallow copy of the table / of a list of micro-op lists still holds the very same inner lists
+        return kind, kind in ("LPL", "SPL")
+
+    return G5.Origins(G5.Flow(fn), source, index, elem, collect, copied, _const)
 
 
 def rmw_flags():
+    """The join of store micro-ops to load micro-ops in `assign_tp_lt`, found by DATA FLOW (names, hoisted
+    locals, if/else vs conditional expression vs `or`-default, loop vs comprehension do not matter): the one
+    statement that concatenates an expression holding a load micro-op list with one holding a store micro-op
+    list; the load list is `by reference` iff no copy lies on any way from the table to that statement."""
     tree = parse("osaca/semantics/arch_semantics.py")
-    fn = find_func(tree, "assign_tp_lt", "ArchSemantics")
-    lps = set(_assigned_from_call(fn, "get_load_throughput"))
-    sps = set(_assigned_from_call(fn, "get_store_throughput"))
-    if len(lps) != 1 or len(sps) != 1:
-        raise TranslateError("assign_tp_lt: expected one name holding get_load_throughput(...) and one "
-                             "holding get_store_throughput(...), got %r / %r" % (sorted(lps), sorted(sps)))
-    (lp,), (sp,) = lps, sps
-    # L: `L = <lp>[0][1]` (possibly copied);  S: `S = <sp>[0][1]`
-    l_names, l_byref, s_names = set(), [], set()
-    for n in ast.walk(fn):
-        if isinstance(n, ast.Assign) and len(n.targets) == 1 and isinstance(n.targets[0], ast.Name):
-            v, copied = _strip_copy(n.value)
-            base = _const_index(v, 1)
-            base = _const_index(base, 0) if base is not None else None
-            if base is not None and _name(base) == lp:
-                l_names.add(n.targets[0].id)
-                l_byref.append(not copied)
-            if base is not None and _name(base) == sp:
-                s_names.add(n.targets[0].id)
-    if len(l_names) != 1 or len(s_names) != 1:
-        raise TranslateError("assign_tp_lt: `X = %s[0][1]` / `Y = %s[0][1]` not found uniquely (%r, %r)"
-                             % (lp, sp, sorted(l_names), sorted(s_names)))
-    (L,), (S,) = l_names, s_names
-    # the other way L gets its value: `L = [ldp[1] for ldp in <lp> ...]` followed by `L = L[0]`
-    for n in ast.walk(fn):
-        if isinstance(n, ast.Assign) and len(n.targets) == 1 and _name(n.targets[0]) == L \
-                and isinstance(n.value, ast.ListComp):
-            gens = n.value.generators
-            if len(gens) == 1 and _name(gens[0].iter) == lp and isinstance(gens[0].target, ast.Name):
-                elt, copied = _strip_copy(n.value.elt)
-                if _name(_const_index(elt, 1)) != gens[0].target.id:
-                    raise TranslateError("assign_tp_lt: unexpected element in the list comprehension over %s" % lp)
-                l_byref.append(not copied)
-    if len(set(l_byref)) != 1:
-        raise TranslateError("assign_tp_lt: load micro-ops are copied on one path and not on the other")
-    load_by_ref = l_byref[0]
-    # the joining statement
-    found = []
-    for n in ast.walk(fn):
-        if isinstance(n, ast.AugAssign) and _name(n.target) == L and isinstance(n.op, ast.Add) \
-                and _name(n.value) == S:
-            found.append(("inplace", True))
-        elif isinstance(n, ast.Expr) and isinstance(n.value, ast.Call) \
-                and isinstance(n.value.func, ast.Attribute) and n.value.func.attr == "extend" \
-                and _name(n.value.func.value) == L and len(n.value.args) == 1 and _name(n.value.args[0]) == S:
-            found.append(("inplace", True))
-        elif isinstance(n, ast.Assign) and len(n.targets) == 1 and _name(n.targets[0]) == L:
-            v = n.value
-            if isinstance(v, ast.BinOp) and isinstance(v.op, ast.Add):
-                a, b = _name(v.left), _name(v.right)
-                if (a, b) == (L, S):
-                    found.append(("fresh", True))
-                elif (a, b) == (S, L):
-                    found.append(("fresh", False))
-            elif isinstance(v, ast.List) and len(v.elts) == 2 and all(isinstance(e, ast.Starred) for e in v.elts):
-                a, b = _name(v.elts[0].value), _name(v.elts[1].value)
-                if (a, b) == (L, S):
-                    found.append(("fresh", True))
-                elif (a, b) == (S, L):
-                    found.append(("fresh", False))
-            elif isinstance(v, ast.Call) and _name(v.func) == "list" and len(v.args) == 1 \
-                    and isinstance(v.args[0], ast.Call) and _name(v.args[0].func) == "chain":
-                names = [_name(x) for x in v.args[0].args]
-                if names == [L, S]:
-                    found.append(("fresh", True))
-                elif names == [S, L]:
-                    found.append(("fresh", False))
+    fn = _method(tree, "assign_tp_lt", "ArchSemantics")
+    O = _origins(fn)
+    n_lp = sum(1 for n in ast.walk(fn) if _method_call(n, "get_load_throughput"))
+    n_sp = sum(1 for n in ast.walk(fn) if _method_call(n, "get_store_throughput"))
+    if n_lp != 1 or n_sp != 1:
+        raise TranslateError("assign_tp_lt: expected one call of get_load_throughput(...) and one of "
+                             "get_store_throughput(...), got %d / %d" % (n_lp, n_sp))
+
+    def kinds(node):
+        return {k for k, _ in O.tags(node)}
+
+    def is_l(node):
+        return "LPL" in kinds(node)
+
+    def is_s(node):
+        return "SPL" in kinds(node)
+
+    def pair(a, b):
+        """("L first"?, load expr) if {a, b} is one load list and one store list"""
+        if is_l(a) and is_s(b) and not is_s(a) and not is_l(b):
+            return True, a
+        if is_s(a) and is_l(b) and not is_l(a) and not is_s(b):
+            return False, b
+        if (is_l(a) or is_s(a)) and (is_l(b) or is_s(b)):
+            raise TranslateError("assign_tp_lt: an operand of the join at line %s may be a load list as well as a "
+                                 "store list" % getattr(a, "lineno", "?"))
+        return None
+
+    found = []      # (kind, load first, load expression, node)
+    for n in G5.walk_scope(fn):
+        if isinstance(n, ast.AugAssign) and isinstance(n.op, ast.Add):
+            p = pair(n.target, n.value) if isinstance(n.target, ast.Name) else None
+            if p is not None:
+                if not p[0]:
+                    raise TranslateError("assign_tp_lt: the load micro-ops are appended to the store table's list "
+                                         "in place (line %d): not modelled" % n.lineno)
+                found.append(("inplace", True, p[1], n))
+        elif isinstance(n, ast.Call) and isinstance(n.func, ast.Attribute) and n.func.attr == "extend" \
+                and len(n.args) == 1 and not n.keywords:
+            p = pair(n.func.value, n.args[0])
+            if p is not None:
+                if not p[0]:
+                    raise TranslateError("assign_tp_lt: the load micro-ops are appended to the store table's list "
+                                         "in place (line %d): not modelled" % n.lineno)
+                found.append(("inplace", True, p[1], n))
+        elif isinstance(n, ast.BinOp) and isinstance(n.op, ast.Add):
+            p = pair(n.left, n.right)
+            if p is not None:
+                found.append(("fresh", p[0], p[1], n))
+        elif isinstance(n, (ast.List, ast.Tuple)) and len(n.elts) == 2 and all(isinstance(e, ast.Starred) for e in n.elts):
+            p = pair(n.elts[0].value, n.elts[1].value)
+            if p is not None:
+                found.append(("fresh", p[0], p[1], n))
+        elif isinstance(n, ast.Call) and G5_call_name(n) in ("chain", "from_iterable"):
+            args = n.args
+            if G5_call_name(n) == "from_iterable" and len(args) == 1 and isinstance(args[0], (ast.List, ast.Tuple)):
+                args = args[0].elts
+            if len(args) == 2 and not n.keywords:
+                p = pair(args[0], args[1])
+                if p is not None:
+                    found.append(("fresh", p[0], p[1], n))
     if len(found) != 1:
-        raise TranslateError("assign_tp_lt: expected exactly one statement joining %s and %s, found %r"
-                             % (L, S, found))
-    kind, load_first = found[0]
-    return {"rmwInPlace": kind == "inplace", "rmwLoadFirst": load_first, "loadByRef": load_by_ref}
+        raise TranslateError("assign_tp_lt: expected exactly one statement joining the load micro-ops and the store "
+                             "micro-ops, found %r" % [(k, f, getattr(x, "lineno", "?")) for k, f, _, x in found])
+    kind, load_first, lexpr, _ = found[0]
+    copies = {cp for k, cp in O.tags(lexpr) if k == "LPL"}
+    if len(copies) != 1:
+        raise TranslateError("assign_tp_lt: load micro-ops are copied on one path and not on the other")
+    return {"rmwInPlace": kind == "inplace", "rmwLoadFirst": load_first, "loadByRef": not copies.pop()}
+
+
+def G5_call_name(n):
+    f = n.func
+    return f.attr if isinstance(f, ast.Attribute) else f.id if isinstance(f, ast.Name) else None
+
+
+def _peel_copies(node, flow):
+    """(innermost expression, was any copy made) looking through hoisted locals and nested copies"""
+    copied = False
+    for _ in range(20):
+        node = flow.resolve(node)
+        cc = G5.copy_call(node)
+        if cc is None:
+            break
+        node, copied = cc[0], True
+    return node, copied
 
 
 def load_default_copied():
     tree = parse("osaca/semantics/hw_model.py")
-    fn = find_func(tree, "get_load_throughput", "MachineModel")
-    rets = [n for n in ast.walk(fn) if isinstance(n, ast.Return)]
-    for r in rets:
-        v = r.value
-        if isinstance(v, ast.List) and len(v.elts) == 1 and isinstance(v.elts[0], ast.Tuple) \
-                and len(v.elts[0].elts) == 2:
-            x, copied = _strip_copy(v.elts[0].elts[1])
-            if isinstance(x, ast.Subscript) and isinstance(x.slice, ast.Constant) \
-                    and x.slice.value == "load_throughput_default":
-                return copied
-    raise TranslateError("get_load_throughput: `return [(memory, ...load_throughput_default...)]` not found")
+    fn = _method(tree, "get_load_throughput", "MachineModel")
+    flow = G5.Flow(fn)
+    hits = set()
+    for r in G5.walk_scope(fn):
+        if not isinstance(r, ast.Return) or r.value is None:
+            continue
+        for v in G5.value_leaves(flow.resolve(r.value)):
+            v = flow.resolve(v)
+            if isinstance(v, ast.List) and len(v.elts) == 1:
+                e = flow.resolve(v.elts[0])
+                if isinstance(e, ast.Tuple) and len(e.elts) == 2:
+                    x, copied = _peel_copies(e.elts[1], flow)
+                    if isinstance(x, ast.Subscript) and not isinstance(x.slice, ast.Slice):
+                        key = flow.resolve(x.slice)
+                        if isinstance(key, ast.Constant) and key.value == "load_throughput_default":
+                            hits.add(copied)
+    if len(hits) != 1:
+        raise TranslateError("get_load_throughput: `return [(memory, ...load_throughput_default...)]` not found "
+                             "(or copied on one path only)")
+    return hits.pop()
 
 
 def found_by_ref():
     tree = parse("osaca/semantics/arch_semantics.py")
-    fn = find_func(tree, "_handle_instruction_found", "ArchSemantics")
+    fn = _method(tree, "_handle_instruction_found", "ArchSemantics")
+    flow = G5.Flow(fn)
     hits = []
-    for n in ast.walk(fn):
-        if isinstance(n, ast.Assign) and len(n.targets) == 1 and isinstance(n.targets[0], ast.Attribute) \
-                and n.targets[0].attr == "port_uops":
-            v, copied = _strip_copy(n.value)
+    cands = []
+    for n in G5.walk_scope(fn):
+        if isinstance(n, ast.Assign) and any(isinstance(t, ast.Attribute) and t.attr == "port_uops" for t in n.targets):
+            cands.append(n.value)
+        elif isinstance(n, ast.Call) and isinstance(n.func, ast.Name) and n.func.id == "setattr" and len(n.args) == 3 \
+                and isinstance(n.args[1], ast.Constant) and n.args[1].value == "port_uops":
+            cands.append(n.args[2])
+    for value in cands:
+        for leaf in G5.value_leaves(flow.resolve(value)):
+            v, copied = _peel_copies(leaf, flow)
             if isinstance(v, ast.Attribute) and v.attr == "port_pressure":
                 hits.append(not copied)
     if len(hits) != 1:
@@ -171,21 +292,39 @@ def found_by_ref():
 
 
 def hidden_by_ref():
+    """Every way a hidden operand object of the ISA entry reaches a list (`append(op)` in a loop over
+    `.hidden_operands`, `+= [h for h in ...]`, `.extend(...)`) -- by reference iff no copy lies on the way;
+    all ways must agree."""
     tree = parse("osaca/semantics/isa_semantics.py")
-    fn = find_func(tree, "_apply_found_ISA_data", "ISASemantics")
+    fn = _method(tree, "_apply_found_ISA_data", "ISASemantics")
+
+    def source(node):
+        return "HL" if isinstance(node, ast.Attribute) and node.attr == "hidden_operands" else None
+
+    O = G5.Origins(G5.Flow(fn), source,
+                   index=lambda kind, k: "HO" if kind in ("HL", "HC") and isinstance(k, int) else None,
+                   elem=lambda kind: "HO" if kind in ("HL", "HC") else None,
+                   collect=lambda kind: "HC" if kind == "HO" else None,
+                   copied=lambda kind, how: (kind, how == "deep" or kind == "HO"),
+                   const=_const)
     hits = []
-    for n in ast.walk(fn):
-        if isinstance(n, ast.For) and isinstance(n.iter, ast.Attribute) and n.iter.attr == "hidden_operands" \
-                and isinstance(n.target, ast.Name):
-            var = n.target.id
-            for m in ast.walk(n):
-                if isinstance(m, ast.Call) and isinstance(m.func, ast.Attribute) and m.func.attr == "append" \
-                        and len(m.args) == 1:
-                    v, copied = _strip_copy(m.args[0])
-                    if _name(v) == var:
-                        hits.append(not copied)
-    if len(hits) != 1:
-        raise TranslateError("_apply_found_ISA_data: `for op in isa_data.hidden_operands: ...append(op)` not found uniquely")
+    for n in G5.walk_scope(fn):
+        tags = set()
+        if isinstance(n, ast.Call) and isinstance(n.func, ast.Attribute) and not n.keywords:
+            if n.func.attr == "append" and len(n.args) == 1:
+                tags = {t for t in O.tags(n.args[0]) if t[0] == "HO"}
+            elif n.func.attr == "insert" and len(n.args) == 2:
+                tags = {t for t in O.tags(n.args[1]) if t[0] == "HO"}
+            elif n.func.attr == "extend" and len(n.args) == 1:
+                tags = {t for t in O.tags(n.args[0]) if t[0] in ("HL", "HC")}
+        elif isinstance(n, ast.AugAssign) and isinstance(n.op, ast.Add):
+            tags = {t for t in O.tags(n.value) if t[0] in ("HL", "HC")}
+        elif isinstance(n, ast.Assign) and isinstance(n.value, ast.BinOp) and isinstance(n.value.op, ast.Add):
+            tags = {t for side in (n.value.left, n.value.right) for t in O.tags(side) if t[0] in ("HL", "HC")}
+        hits += [not cp for _, cp in tags]
+    if not hits or len(set(hits)) != 1:
+        raise TranslateError("_apply_found_ISA_data: hidden operands reach the operand lists %s"
+                             % ("on no way that is understood" if not hits else "copied on one way and not on another"))
     return hits[0]
 
 
@@ -253,7 +392,8 @@ DOC = {
 
 
 @generator("HistoryCfg", ["osaca/semantics/arch_semantics.py", "osaca/semantics/isa_semantics.py",
-                          "osaca/semantics/hw_model.py"])
+                          "osaca/semantics/hw_model.py", "../verif-self:tools/gen/historycfg.py",
+                          "../verif-self:tools/gen/astutil_G5.py"])
 def gen_historycfg():
     f = flags()
     out = [HEADER, "namespace OsacaVerif.Gen.HistoryCfg\n"]
